@@ -190,11 +190,24 @@ def _info(H, args, machine, event, state, source, target, kwargs):
     return info
 
 
-def make_action(cbid, group, is_async, free):
+def make_action(cbid, group, is_async, free, deferred=False):
     """One generated action/validator callback.  Body: begin record, scripted yields, injected fault,
     scripted nested sends (each with a marker before and a record of what it returned), end record, scripted return.
     When the provider object carries `_prov` (several listeners of one class) the callback id uses that provider name."""
-    return _make_action(cbid, group, is_async, free)
+    cb = _make_action(cbid, group, is_async, free)
+    if deferred and is_async:
+        # a PLAIN function that hands back an awaitable (a wrapper / lambda delegating to a coroutine function, an event trigger
+        # used as an action): the async engine awaits whatever awaitable a callback returns
+        acb = cb
+        if free:
+
+            def cb(*args, machine, event, state, source, target, **kwargs):
+                return acb(*args, machine=machine, event=event, state=state, source=source, target=target, **kwargs)
+        else:
+
+            def cb(self, *args, machine, event, state, source, target, **kwargs):
+                return acb(self, *args, machine=machine, event=event, state=state, source=source, target=target, **kwargs)
+    return cb
 
 
 def _resolve(cbid, obj):
@@ -432,6 +445,9 @@ def render(spec, *, cname=None, register=True):
     cbs = spec["cbs"]
     guards = spec.get("guards", [])
 
+    from .gen import deferred_ok
+
+    dok = deferred_ok(spec)
     funcs = {}  # cbid -> function object (for func/deco/ method placement)
     ext_objs = {}
     instance_fns = {}
@@ -443,7 +459,7 @@ def render(spec, *, cname=None, register=True):
             continue
         prov = c["prov"]
         free = c["attach"] in ("func", "partial")
-        fn = make_action(cid, c["group"], c.get("async", False), free)
+        fn = make_action(cid, c["group"], c.get("async", False), free, c.get("deferred", False) and dok)
         qual = f"{cname}_{prov}.{c['name']}" if not free else f"{cname}_free_{c['name']}"
         # free callables may share a __name__ (think lambdas) as long as they sit in different groups / transitions
         _name(fn, c.get("alias", c["name"]) if free else c["name"], qual)
